@@ -170,6 +170,8 @@ pub struct Queries {
     pub norep_codes: Vec<Code>,
     pub rep: Vec<Action>,
     pub rep_codes: Vec<Code>,
+    /// offered codes the driver may choose from (unknown action values, code u16::MAX, excluded)
+    pub pick: Vec<Code>,
     pub term: Option<bool>,
 }
 
@@ -179,7 +181,8 @@ pub fn observe(g: &GameState) -> Result<Queries, PanicInfo> {
     let term = guard("is_terminal", || g.is_terminal())?;
     let norep_codes = codes_of(&norep);
     let rep_codes = codes_of(&rep);
-    Ok(Queries { norep, norep_codes, rep, rep_codes, term: decode_term(&term) })
+    let pick: Vec<Code> = rep_codes.iter().copied().filter(|c| *c != u16::MAX).collect();
+    Ok(Queries { norep, norep_codes, rep, rep_codes, pick, term: decode_term(&term) })
 }
 
 pub struct StepOut {
@@ -223,7 +226,7 @@ pub fn step(g: &GameState, sh: &Shadow, code: Code) -> Result<StepOut, PanicInfo
     let mut n = Shadow {
         board: obs_board,
         gold: obs_gold,
-        step: obs_step,
+        step: obs_step.min(3), // an out-of-range counter is C03's finding; the shadow stays well-formed
         pend: Pend::None,
         moveno: obs_moveno,
         turn_start: sh.turn_start,
@@ -264,7 +267,7 @@ pub fn step(g: &GameState, sh: &Shadow, code: Code) -> Result<StepOut, PanicInfo
 }
 
 pub fn choose(policy: &mut Policy, script_pos: &mut usize, rng: &mut Rng, q: &Queries, sh: &Shadow) -> Option<Code> {
-    let rep = &q.rep_codes;
+    let rep = &q.pick;
     if rep.is_empty() {
         return None;
     }
@@ -614,7 +617,7 @@ pub fn walk(g: &GameState, sh: &Shadow, q: &Queries, rec: &mut GameRecord, depth
         return;
     }
     // when the budget is short, sub-sample the children
-    let mut order: Vec<Code> = q.rep_codes.clone();
+    let mut order: Vec<Code> = q.pick.clone();
     if *budget < order.len() * 4 {
         rng.shuffle(&mut order);
         order.truncate((*budget / 4).max(1).min(order.len()));
